@@ -669,19 +669,39 @@ def inline_helper_calls(f, methods, depth=2):
 
 
 def structure_continues(body):
-    """Loop body in which every guard clause `if c: A...; continue` (at the top level of the body, no else branch) is rewritten as
-    `if c: A... else: <rest of the body>` - the same control flow without the jump, for analyses that execute a body as a block."""
-    out = []
-    for i, st in enumerate(body):
-        if isinstance(st, ast.If) and not st.orelse and st.body and isinstance(st.body[-1], ast.Continue) and \
-                not any(isinstance(n, (ast.Continue, ast.Break)) for b in st.body[:-1] for n in ast.walk(b)):
-            rest = structure_continues(body[i + 1:])
-            new = ast.If(test=st.test, body=st.body[:-1] or [ast.Pass()], orelse=rest or [ast.Pass()])
-            ast.copy_location(new, st)
-            out.append(new)
-            return out
-        out.append(st)
-    return out
+    """Loop body without `continue`: the same control flow with the jump removed.  A `continue` ends the statement list it stands in; an
+    `if` that contains one (at any depth, but not inside a nested loop of its own) takes the statements that follow it into both of its
+    branches.  For analyses that execute a body as a block."""
+    import copy
+
+    def has_continue(st):
+        if isinstance(st, ast.Continue):
+            return True
+        if isinstance(st, (ast.For, ast.While, ast.FunctionDef)):
+            return False        # a continue in there belongs to that loop
+        for fld in ('body', 'orelse', 'finalbody', 'handlers'):
+            for x in getattr(st, fld, None) or []:
+                if has_continue(x):
+                    return True
+        return False
+
+    def elim(stmts):
+        out = []
+        for i, st in enumerate(stmts):
+            if isinstance(st, ast.Continue):
+                return out or [ast.Pass()]
+            if isinstance(st, ast.If) and has_continue(st):
+                rest = stmts[i + 1:]
+                new = ast.If(test=st.test, body=elim(list(st.body) + [copy.deepcopy(r) for r in rest]) or [ast.Pass()],
+                             orelse=elim(list(st.orelse) + list(rest)) or [ast.Pass()])
+                ast.copy_location(new, st)
+                out.append(new)
+                return out
+            if has_continue(st):
+                return list(stmts)      # a continue inside try / with: left as it is (the caller reports what it cannot execute)
+            out.append(st)
+        return out
+    return elim(list(body))
 
 
 def delegation(f, target, n_args=None):
